@@ -29,6 +29,16 @@ type sendItem struct {
 type chanState struct {
 	pending     []*sendItem
 	recvWaiting int
+	readyAt     int // event stamp of the operation that made the channel receivable
+}
+
+// markReady stamps the moment c became receivable: a goroutine parked in a
+// select is woken by the first operation that fires, and that case wins.
+func (p *Path) markReady(c *Chan, wasReady bool) {
+	if !wasReady {
+		p.eventSeq++
+		p.cs(c).readyAt = p.eventSeq
+	}
 }
 
 func (p *Path) cs(c *Chan) *chanState {
@@ -113,18 +123,19 @@ func (p *Path) block(ready func() bool, what string) {
 }
 
 // yield optionally lets other runnable tasks go first (forking).
-func (p *Path) yield() {
+func (p *Path) yield() bool {
 	cur := p.cur
 	cands := p.runnable(cur)
 	if len(cands) == 0 {
-		return
+		return false
 	}
 	i := p.choice(len(cands) + 1)
 	if i == 0 {
-		return
+		return false
 	}
 	cur.ready = nil
 	p.switchTo(cur, cands[i-1])
+	return true
 }
 
 func (p *Path) spawn(fr *Frame, pos token.Pos, fn Value, args []Value) {
@@ -212,13 +223,16 @@ func (p *Path) chanSend(fr *Frame, c *Chan, v Value) {
 	if c.Closed {
 		panic(targetPanic{v: Iface{T: p.eng.runtimeErrorString, V: CStr("send on closed channel")}})
 	}
+	was := p.recvReady(c)
 	if len(c.Buf) < c.Cap {
 		c.Buf = append(c.Buf, copyVal(v))
+		p.markReady(c, was)
 		return
 	}
 	st := p.cs(c)
 	it := &sendItem{v: copyVal(v)}
 	st.pending = append(st.pending, it)
+	p.markReady(c, was)
 	p.block(func() bool { return it.taken || c.Closed }, "chan send")
 	if !it.taken && c.Closed {
 		panic(targetPanic{v: Iface{T: p.eng.runtimeErrorString, V: CStr("send on closed channel")}})
@@ -298,7 +312,9 @@ func (p *Path) chanClose(fr *Frame, c *Chan) {
 	if c.Closed {
 		panic(targetPanic{v: Iface{T: p.eng.runtimeErrorString, V: CStr("close of closed channel")}})
 	}
+	was := p.recvReady(c)
 	c.Closed = true
+	p.markReady(c, was)
 }
 
 func (p *Path) sendReady(c *Chan) bool {
@@ -328,8 +344,10 @@ func (p *Path) selectStmt(fr *Frame, instr *ssa.Select) Value {
 	}
 	rs := ready()
 	chosen := -1
+	parked := false
 	if len(rs) == 0 {
 		if instr.Blocking {
+			parked = true
 			// count as waiting receiver on every recv case
 			for _, st := range instr.States {
 				if c, _ := fr.get(st.Chan).(*Chan); c != nil && st.Dir == types.RecvOnly {
@@ -345,7 +363,25 @@ func (p *Path) selectStmt(fr *Frame, instr *ssa.Select) Value {
 			rs = ready()
 		}
 	}
-	if len(rs) > 0 {
+	if len(rs) > 0 && parked {
+		// the case that fired first wins (send cases: any)
+		best := -1
+		for _, i := range rs {
+			st := instr.States[i]
+			if st.Dir != types.RecvOnly {
+				continue
+			}
+			c := fr.get(st.Chan).(*Chan)
+			if best < 0 || p.cs(c).readyAt < p.cs(fr.get(instr.States[best].Chan).(*Chan)).readyAt {
+				best = i
+			}
+		}
+		if best >= 0 {
+			chosen = best
+		} else {
+			chosen = rs[p.choice(len(rs))]
+		}
+	} else if len(rs) > 0 {
 		chosen = rs[p.choice(len(rs))]
 	}
 	r := Tuple{smt.I(int64(chosen)), smt.False}
